@@ -51,6 +51,7 @@ func (c *Ctx) PkgFuncs(rel string) []*ssa.Function {
 
 func c10(c *Ctx) {
 	r := c.R
+	c10reservedIsMax(c)
 	r.Decides("no integer division or remainder in the CPU-suppress computation can have a zero divisor (the 'never crashes even when no CPU is eligible' clause)")
 	r.Decides("every processor appended to the LSR/LS candidate pools is outside the node-reserved and system-exclusive CPU sets, and the LS pool excludes LSE-owned CPUs; calcBECPUSet feeds all three exclusion sources into its filter")
 	r.Decides("the CPU list applied to the BE cgroups derives only from calculateBESuppressCPUSetPolicy over those pools")
